@@ -203,6 +203,58 @@ theorem insExport_eq (s : AggState) (e : Nat) (n : Str) (k : ItemKind) (ti : Int
   simp only [insExport, setExports]
   rw [setInterface_congr hti _ (fun i => { i with exports := amInsert ti.exports n k }) rfl]
 
+/-- the loop body of `merge_interface` (the same term as in the model: `mergeInterface_succ`) -/
+def mergeExportBody (fuel existing : Nat) (types : Types) : Str × ItemKind → AggM Unit :=
+  fun (e : Str × ItemKind) => do
+      let (name, sourceKind) := e
+      let ag ← getAgg
+      let target ← match ag.types.interfaces[existing]? with
+        | none => apanic "interface index"
+        | some i => pure (amGet i.exports name)
+      let cfg := (← get).cfg
+      let skip ← match target with
+        | some targetKind => do
+          let nested : Option (Nat × Nat × (Nat → ItemKind)) := match targetKind, sourceKind with
+            | .instance t, .instance s => if cfg.nestedMerge then some (t, s, ItemKind.instance) else none
+            | .type (.interface t), .type (.interface s) =>
+              if cfg.typeMerge then some (t, s, fun i => ItemKind.type (.interface i)) else none
+            | _, _ => none
+          match nested with
+          | some (t, s, wrap) =>
+            let copy ← match ag.types.interfaces[t]? with
+              | none => apanic "interface index"
+              | some i => pure i
+            let merged := ag.types.interfaces.length
+            modifyTypes fun ty => { ty with interfaces := ty.interfaces ++ [copy] }
+            withCtx s!"mismatched type for export `{strS name}`" (mergeInterface fuel merged types s)
+            modifyTypes fun ty => ty.setInterface existing fun i => { i with exports := amInsert i.exports name (wrap merged) }
+            pure true
+          | none =>
+          match ← chkSubtype types sourceKind ag.types targetKind with
+          | .ok =>
+            modifyAgg fun ag => { ag with remapped := alInsert ag.remapped (GTy.mk' types sourceKind.ty) targetKind.ty }
+            pure true
+          | _ =>
+            let ag ← getAgg
+            withCtx s!"mismatched type for export `{strS name}`" (chkSubtypeQ ag.types targetKind types sourceKind)
+            pure false
+        | none => pure false
+      if !skip then
+        let remapped ← remapKind fuel types sourceKind
+        modifyTypes fun t => t.setInterface existing fun i => { i with exports := amInsert i.exports name remapped }
+
+theorem mergeInterface_succ (fuel existing : Nat) (types : Types) (id : Nat) :
+    mergeInterface (fuel + 1) existing types id = (do
+      let src ← match types.interfaces[id]? with
+        | none => apanic "interface index"
+        | some i => pure i
+      mergeUsedTypes (remapInterface fuel) types src.uses
+        (fun t => (t.interfaces[existing]?).map (·.uses))
+        (fun u t => t.setInterface existing fun i => { i with uses := u })
+      forMList (mergeExportBody fuel existing types) src.exports) := by
+  rw [mergeInterface]
+  rfl
+
 section step
 variable {W : Colls} {types : Types} (hW : W.mem types) (hs : Sane types) {e : Nat}
 include hW hs
@@ -265,7 +317,8 @@ theorem keepExport_spec {s : AggState} {F : Forest} (hT : TState W e s F) {ti : 
     ∃ r c', chkSubtype types sk s.agg.types tk s = .ok (r, { s with chk := c' }) ∧ F.hasName n = true ∧
       (r = .ok → MStep types.uid e s (keepState s c' (GTy.mk' types sk.ty) tk.ty) ∧
         TState W e (keepState s c' (GTy.mk' types sk.ty) tk.ty) F ∧ ∀ tf, F.get n = some tf → tf = ts) ∧
-      (r ≠ .ok → ∃ m, chkSubtypeQ s.agg.types tk types sk { s with chk := c' } = .error (.err m)) := by
+      (r ≠ .ok → ∃ m, chkSubtypeQ s.agg.types tk types sk { s with chk := c' } = .error (.err m)) ∧
+      ∃ tf, F.get n = some tf ∧ (r = .ok ↔ ts = tf) := by
   obtain ⟨ti', hti', hflat⟩ := hT.itf
   rw [hti] at hti'; cases hti'
   obtain ⟨m, hm⟩ := hflat.unf
@@ -285,7 +338,7 @@ theorem keepExport_spec {s : AggState} {F : Forest} (hT : TState W e s F) {ti : 
   obtain ⟨r, c', hr, hiff, hnp, hc'⟩ := chkSubtype_leaf s hT.ainv.cinv types s.agg.types (.inl hW) (.inr rfl) sk tk lk ltk
     ts tf (hC_fuel _ (by simp [checkFuel])) (hT_fuel _ (by simp [checkFuel])) htsnd htfnd
   rw [subNames_leaf_eq heqs hrs hrf] at hiff
-  refine ⟨r, c', hr, hhas, ?_, ?_⟩
+  refine ⟨r, c', hr, hhas, ?_, ?_, ⟨tf, hFn, hiff⟩⟩
   · intro hok
     have hEq : ts = tf := hiff.1 hok
     subst hEq
@@ -426,6 +479,87 @@ theorem keepExport_spec {s : AggState} {F : Forest} (hT : TState W e s F) {ti : 
       simp only [chkSubtypeQ, run_bind, hr2]
       rfl
 
+/-- one iteration of the loop of `merge_interface` on flat interfaces -/
+theorem mergeExport_step (fuel : Nat) (n : Str) (sk : ItemKind) (s0 s1 : AggState) (F0 : Forest) (ts : Tree)
+    (hT0 : TState W e s0 F0) (lk : LeafK sk) (hts : types.unfoldKind types.fuel sk = some ts)
+    (htsnd : ts.namesDistinct = true) (hb : mergeExportBody fuel e types (n, sk) s0 = .ok ((), s1)) :
+    MStep types.uid e s0 s1 ∧ ((F0.hasName n = true ∧ TState W e s1 F0 ∧ ∀ tf, F0.get n = some tf → tf = ts) ∨
+      (F0.hasName n = false ∧ TState W e s1 (snoc F0 n ts))) := by
+  simp only [mergeExportBody] at hb
+  obtain ⟨ti, hti, hflat⟩ := hT0.itf
+  simp only [bind_ok, run_getAgg, Except.ok.injEq, Prod.mk.injEq] at hb
+  obtain ⟨_, _, ⟨rfl, rfl⟩, hb⟩ := hb
+  simp only [hti, bind_ok, run_pure, run_get, Except.ok.injEq, Prod.mk.injEq] at hb
+  obtain ⟨_, _, ⟨rfl, rfl⟩, _, _, ⟨rfl, rfl⟩, hb⟩ := hb
+  cases hget : amGet ti.exports n with
+  | none =>
+    rw [hget] at hb
+    simp only [bind_ok, run_pure, Except.ok.injEq, Prod.mk.injEq] at hb
+    obtain ⟨_, _, ⟨rfl, rfl⟩, hb⟩ := hb
+    simp only [Bool.not_false, ↓reduceIte, bind_ok, run_modifyTypes, Except.ok.injEq, Prod.mk.injEq, true_and] at hb
+    obtain ⟨k', s2, hr, rfl⟩ := hb
+    obtain ⟨hm, hhas, hT2⟩ := appendExport_spec hW hs hT0 hti hget lk hts htsnd hr
+    exact ⟨hm, .inr ⟨hhas, hT2⟩⟩
+  | some tk =>
+    rw [hget] at hb
+    obtain ⟨r, c', hr, hhas, hok, hne, _⟩ := keepExport_spec hW hs hT0 hti hget lk hts htsnd
+    have ltk : LeafK tk := hflat.leaf _ (alGet_mem _ _ _ (by rw [← amGet_eq_alGet]; exact hget))
+    have hb' : (do
+          let __do_lift ← chkSubtype types sk s0.agg.types tk
+          match __do_lift with
+            | R.ok => do
+              modifyAgg fun ag =>
+                  { types := ag.types, imports := ag.imports,
+                    remapped := alInsert ag.remapped (GTy.mk' types sk.ty) tk.ty,
+                    interfaces := ag.interfaces, redirects := ag.redirects }
+              let skip ← pure true
+              if (!skip) = true then do
+                  let remapped ← remapKind fuel types sk
+                  modifyTypes fun t =>
+                      t.setInterface e fun i =>
+                        { id := i.id, uses := i.uses, exports := amInsert i.exports n remapped }
+                else pure ()
+            | x => do
+              let ag ← getAgg
+              withCtx (toString "mismatched type for export `" ++ toString (strS n) ++ toString "`")
+                  (chkSubtypeQ ag.types tk types sk)
+              let skip ← pure false
+              if (!skip) = true then do
+                  let remapped ← remapKind fuel types sk
+                  modifyTypes fun t =>
+                      t.setInterface e fun i =>
+                        { id := i.id, uses := i.uses, exports := amInsert i.exports n remapped }
+                else pure () : AggM Unit) s0 = .ok ((), s1) := by
+      cases tk with
+      | func _ => exact hb
+      | value _ => exact hb
+      | _ => cases ltk
+    clear hb
+    simp only [bind_ok, hr, Except.ok.injEq, Prod.mk.injEq] at hb'
+    obtain ⟨_, _, ⟨rfl, rfl⟩, hb'⟩ := hb'
+    cases r with
+    | ok =>
+      simp only [bind_ok, run_modifyAgg, run_pure, Except.ok.injEq, Prod.mk.injEq, true_and] at hb'
+      obtain ⟨_, _, ⟨rfl, _, _, ⟨rfl, rfl⟩, hb'⟩⟩ := hb'
+      simp only [Bool.not_true, Bool.false_eq_true, ↓reduceIte, run_pure, Except.ok.injEq, Prod.mk.injEq,
+        true_and] at hb'
+      subst hb'
+      obtain ⟨hm, hT2, heq⟩ := hok rfl
+      exact ⟨hm, .inl ⟨hhas, hT2, heq⟩⟩
+    | err m =>
+      obtain ⟨m', hm'⟩ := hne (by simp)
+      simp only [bind_ok, run_getAgg, Except.ok.injEq, Prod.mk.injEq] at hb'
+      obtain ⟨_, _, ⟨rfl, rfl⟩, _, _, hq, _⟩ := hb'
+      rw [withCtx_ok, hm'] at hq
+      cases hq
+    | panic m =>
+      obtain ⟨m', hm'⟩ := hne (by simp)
+      simp only [bind_ok, run_getAgg, Except.ok.injEq, Prod.mk.injEq] at hb'
+      obtain ⟨_, _, ⟨rfl, rfl⟩, _, _, hq, _⟩ := hb'
+      rw [withCtx_ok, hm'] at hq
+      cases hq
+
+
 /-- **`merge_interface` on flat interfaces** -/
 theorem mergeInterface_flat (fuel id : Nat) (s s' : AggState) (F G : Forest) (si : Interface)
     (hT : TState W e s F) (hsi : types.interfaces[id]? = some si) (huses : si.uses = [])
@@ -436,87 +570,14 @@ theorem mergeInterface_flat (fuel id : Nat) (s s' : AggState) (F G : Forest) (si
   cases fuel with
   | zero => simp [mergeInterface, run_apanic] at h
   | succ fuel =>
-    rw [mergeInterface] at h
+    rw [mergeInterface_succ] at h
     simp only [hsi, bind_ok, run_pure, Except.ok.injEq, Prod.mk.injEq] at h
     obtain ⟨_, _, ⟨rfl, rfl⟩, h⟩ := h
     simp only [huses, mergeUsedTypes, forMList, run_pure, Except.ok.injEq, Prod.mk.injEq, true_and,
       exists_eq_left'] at h
     obtain ⟨_, h⟩ := h
-    refine flat_loop (u := types.uid) ?_ si.exports G s s' F hT hleaf hG hGnd h
-    clear h
-    intro n sk s0 s1 F0 ts hT0 lk hts htsnd hb
-    obtain ⟨ti, hti, hflat⟩ := hT0.itf
-    simp only [bind_ok, run_getAgg, Except.ok.injEq, Prod.mk.injEq] at hb
-    obtain ⟨_, _, ⟨rfl, rfl⟩, hb⟩ := hb
-    simp only [hti, bind_ok, run_pure, run_get, Except.ok.injEq, Prod.mk.injEq] at hb
-    obtain ⟨_, _, ⟨rfl, rfl⟩, _, _, ⟨rfl, rfl⟩, hb⟩ := hb
-    cases hget : amGet ti.exports n with
-    | none =>
-      rw [hget] at hb
-      simp only [bind_ok, run_pure, Except.ok.injEq, Prod.mk.injEq] at hb
-      obtain ⟨_, _, ⟨rfl, rfl⟩, hb⟩ := hb
-      simp only [Bool.not_false, ↓reduceIte, bind_ok, run_modifyTypes, Except.ok.injEq, Prod.mk.injEq, true_and] at hb
-      obtain ⟨k', s2, hr, rfl⟩ := hb
-      obtain ⟨hm, hhas, hT2⟩ := appendExport_spec hW hs hT0 hti hget lk hts htsnd hr
-      exact ⟨hm, .inr ⟨hhas, hT2⟩⟩
-    | some tk =>
-      rw [hget] at hb
-      obtain ⟨r, c', hr, hhas, hok, hne⟩ := keepExport_spec hW hs hT0 hti hget lk hts htsnd
-      have ltk : LeafK tk := hflat.leaf _ (alGet_mem _ _ _ (by rw [← amGet_eq_alGet]; exact hget))
-      have hb' : (do
-            let __do_lift ← chkSubtype types sk s0.agg.types tk
-            match __do_lift with
-              | R.ok => do
-                modifyAgg fun ag =>
-                    { types := ag.types, imports := ag.imports,
-                      remapped := alInsert ag.remapped (GTy.mk' types sk.ty) tk.ty,
-                      interfaces := ag.interfaces, redirects := ag.redirects }
-                let skip ← pure true
-                if (!skip) = true then do
-                    let remapped ← remapKind fuel types sk
-                    modifyTypes fun t =>
-                        t.setInterface e fun i =>
-                          { id := i.id, uses := i.uses, exports := amInsert i.exports n remapped }
-                  else pure ()
-              | x => do
-                let ag ← getAgg
-                withCtx (toString "mismatched type for export `" ++ toString (strS n) ++ toString "`")
-                    (chkSubtypeQ ag.types tk types sk)
-                let skip ← pure false
-                if (!skip) = true then do
-                    let remapped ← remapKind fuel types sk
-                    modifyTypes fun t =>
-                        t.setInterface e fun i =>
-                          { id := i.id, uses := i.uses, exports := amInsert i.exports n remapped }
-                  else pure () : AggM Unit) s0 = .ok ((), s1) := by
-        cases tk with
-        | func _ => exact hb
-        | value _ => exact hb
-        | _ => cases ltk
-      clear hb
-      simp only [bind_ok, hr, Except.ok.injEq, Prod.mk.injEq] at hb'
-      obtain ⟨_, _, ⟨rfl, rfl⟩, hb'⟩ := hb'
-      cases r with
-      | ok =>
-        simp only [bind_ok, run_modifyAgg, run_pure, Except.ok.injEq, Prod.mk.injEq, true_and] at hb'
-        obtain ⟨_, _, ⟨rfl, _, _, ⟨rfl, rfl⟩, hb'⟩⟩ := hb'
-        simp only [Bool.not_true, Bool.false_eq_true, ↓reduceIte, run_pure, Except.ok.injEq, Prod.mk.injEq,
-          true_and] at hb'
-        subst hb'
-        obtain ⟨hm, hT2, heq⟩ := hok rfl
-        exact ⟨hm, .inl ⟨hhas, hT2, heq⟩⟩
-      | err m =>
-        obtain ⟨m', hm'⟩ := hne (by simp)
-        simp only [bind_ok, run_getAgg, Except.ok.injEq, Prod.mk.injEq] at hb'
-        obtain ⟨_, _, ⟨rfl, rfl⟩, _, _, hq, _⟩ := hb'
-        rw [withCtx_ok, hm'] at hq
-        cases hq
-      | panic m =>
-        obtain ⟨m', hm'⟩ := hne (by simp)
-        simp only [bind_ok, run_getAgg, Except.ok.injEq, Prod.mk.injEq] at hb'
-        obtain ⟨_, _, ⟨rfl, rfl⟩, _, _, hq, _⟩ := hb'
-        rw [withCtx_ok, hm'] at hq
-        cases hq
+    exact flat_loop (u := types.uid) (fun n sk s0 s1 F0 ts hT0 lk hts htsnd hb =>
+      mergeExport_step hW hs fuel n sk s0 s1 F0 ts hT0 lk hts htsnd hb) si.exports G s s' F hT hleaf hG hGnd h
 
 end step
 
